@@ -368,9 +368,13 @@ def vm_crosscheck(chk, cases, mres, limit=150, max_bytes=3000):
     outs = '; '.join('[' + '; '.join(wl(inv_out[o[0]], o[1], o[2]) for o in mres[c.id][1]) + ']' for c in sel)
     d = os.path.join(CACHE, 'vmc', chk.pid); os.makedirs(d, exist_ok=True)
     v = os.path.join(d, 'cases.v')
-    open(v, 'w').write('From Coq Require Import List ZArith.\nImport ListNotations.\nFrom V Require Import Base.Iface %s.Model.\nLocal Open Scope Z_scope.\n'
+    # the module that defines main_wire is the one the property's Extract.v imports (C05 reuses C04's model)
+    ext = open(os.path.join(VERIF, 'coq', chk.pid, 'Extract.v')).read()
+    mods = re.findall(r'From V Require Import ([^.]*(?:\.[A-Za-z0-9_]+)*)\.', ext)
+    modline = ' '.join(mods) if mods else '%s.Model' % chk.pid
+    open(v, 'w').write('From Coq Require Import List ZArith.\nImport ListNotations.\nFrom V Require Import Base.Iface %s.\nLocal Open Scope Z_scope.\n'
                        'Definition cases : list (list wire) := [%s].\nDefinition expected : list (list wire) := [%s].\n'
-                       'Goal map main_wire cases = expected. Proof. vm_compute. reflexivity. Qed.\n' % (chk.pid, ins, outs))
+                       'Goal map main_wire cases = expected. Proof. vm_compute. reflexivity. Qed.\n' % (modline, ins, outs))
     rc, out, err = sh(['coqc', '-Q', os.path.join(VERIF, 'coq'), 'V', v], cwd=d, timeout=1200)
     if rc != 0: return len(sel), 'vm_compute of the model disagrees with the extracted OCaml model (or failed): ' + (out + err)[-600:]
     return len(sel), None
